@@ -34,6 +34,7 @@ func Spec() *run.Spec {
 			"0..24 vertices ('large' phase: directed sizes 65 535/65 536/65 537/70 001/131 073 (thorough also 200 003/262 145/300 007) in each encoding, then random 2 000..30 000, thorough ..80 000); no face element, `element face 0`, or 1..9 faces (triangles/quads mixed) with count type uchar/int/uint and index type int/uint, property vertex_indices or vertex_index, " +
 			"optionally a per-corner texcoord float list and an unrelated list, in any order; 0-4 comment/obj_info lines anywhere after the format line (some looking like keywords); LF or CRLF header (ascii: CRLF body too), one file in ten with wider white space between header tokens, " +
 			"ascii numbers in five decimal styles, separators blank/double blank/tab, optional trailing blank, optional missing final newline. " +
+			"fault-sequences: one case = a history of 3–8 operations in one goroutine mixing complete ordinary cases (up to 3 000 vertices) with ply.ReadMesh from a source that fails after k bytes (header, first record, mid-records, around 32 KiB, face records, last needed byte; four error values, with or without data on the failing call); non-trivial there: a good operation follows a failed read. " +
 			"Non-trivial: property order differs from the order polyform's own writer emits, or ≥1 alias / unrecognised scalar / quad. Distinct = distinct header layouts (format, line ending, spelled property list, face lists, size buckets, ascii style).",
 		Assumptions: []string{
 			"all stored reals are float32-representable and all ints are exactly representable in float32, so the reader's 32-bit text parse is not at issue; ascii values are compared after rounding the loaded value to float32, binary values exactly",
@@ -49,6 +50,10 @@ func Spec() *run.Spec {
 			"quad_faces": 100, "files_with_texcoord_list": 30, "type_spellings": 8, "crlf_headers": 100,
 			"source_kinds": 10, "readheader_source_kinds": 10, "source_kind_x_format": 30,
 			"ascii_files_over_65536_vertices_loaded": 3, "binary_files_over_65536_vertices_loaded": 6,
+			"lone_component_names": 36, "directed_near_packed_layouts": 500, "near_packed_groups": 15,
+			"near_packed_vector_groups_binary": 400, "near_packed_vector_groups_ascii": 200,
+			"huge_whole_values_float_ascii": 1000, "huge_whole_values_double_ascii": 1000, "huge_whole_values_float_binary": 1000, "huge_whole_values_double_binary": 1000,
+			"fault_histories": 300, "failed_reads_reported": 300, "good_ops_after_a_failed_read": 300, "read_fault_positions": 5,
 		},
 		Phases: []run.Phase{
 			{Name: "foreign", Cases: func(t string) int {
@@ -57,6 +62,12 @@ func Spec() *run.Spec {
 				}
 				return 8000
 			}, Run: func(c *run.Ctx) run.Result { return runCase(c, genOpts{}) }, Batch: 250, CPUBudgetS: 20},
+			{Name: "fault-sequences", Cases: func(t string) int {
+				if t == "thorough" {
+					return 20000
+				}
+				return 500
+			}, Run: faultSequences, Batch: 50, CPUBudgetS: 60},
 			{Name: "large", Cases: func(t string) int {
 				if t == "thorough" {
 					return 120
@@ -230,6 +241,32 @@ func runCase(c *run.Ctx, o genOpts) run.Result {
 	}
 	if m.NPartial > 0 {
 		res.Count("files_with_incomplete_group", 1)
+	}
+	for _, n := range m.Lone {
+		res.SetAdd("lone_component_names", n)
+	}
+	if m.Directed != "" {
+		res.Count("directed_near_packed_layouts", 1)
+		res.SetAdd("directed_near_packed_patterns", m.Directed)
+	}
+	// detector, independent of how the layout came about: a recognised vector group two of
+	// whose members are exactly two slots apart with a foreign property of the same byte
+	// size between them (or a two-component group that is split or reversed)
+	for _, e := range exp {
+		if np := nearPacked(m, e); np != "" {
+			res.SetAdd("near_packed_groups", e.Key[2:]+"("+m.VProps[e.Cols[0]].Name+"…) "+np)
+			res.Count("near_packed_vector_groups_"+map[bool]string{true: "ascii", false: "binary"}[m.Format == "ascii"], 1)
+		}
+	}
+	for j, p := range m.VProps {
+		if p.Type != "float" && p.Type != "double" {
+			continue
+		}
+		for i := range m.Verts {
+			if math.Abs(m.Verts[i][j]) >= 1<<53 {
+				res.Count("huge_whole_values_"+p.Type+"_"+map[bool]string{true: "ascii", false: "binary"}[m.Format == "ascii"], 1)
+			}
+		}
 	}
 	switch {
 	case !m.HasFace:
@@ -623,4 +660,34 @@ func readerClass(kind string) string {
 		return "source implementing io.ByteReader"
 	}
 	return "plain io.Reader source"
+}
+
+// nearPacked describes the layout of a recognised vector group when a reader that
+// decodes it from one window of the record would take a wrong property; "" otherwise.
+func nearPacked(m *model, e expAttr) string {
+	if len(e.Cols) < 2 {
+		return ""
+	}
+	sz := sizeOf(m.VProps[e.Cols[0]].Type)
+	isMember := map[int]bool{}
+	for _, c := range e.Cols {
+		isMember[c] = true
+	}
+	if len(e.Cols) == 2 {
+		a, b := e.Cols[0], e.Cols[1]
+		switch {
+		case b == a-1:
+			return "reversed"
+		case (b == a+2 || a == b+2) && !isMember[(a+b)/2] && sizeOf(m.VProps[(a+b)/2].Type) == sz:
+			return "split by a same-size foreign property"
+		}
+		return ""
+	}
+	for i := 0; i+2 < len(e.Cols); i++ {
+		a, c := e.Cols[i], e.Cols[i+2]
+		if (c == a+2 || a == c+2) && !isMember[(a+c)/2] && sizeOf(m.VProps[(a+c)/2].Type) == sz {
+			return fmt.Sprintf("members %d and %d two slots apart around a same-size foreign property", i, i+2)
+		}
+	}
+	return ""
 }
